@@ -252,13 +252,20 @@ static int json_escape_str(struct printbuf *pb, const char *str, size_t len, int
 
 /* reference counting */
 
+#if defined(HAVE_ATOMIC_BUILTINS) && defined(ENABLE_THREADING) && defined(__ATOMIC_RELAXED)
+/* the counter is updated with atomic builtins: read it atomically too (the asserts below) */
+#define JSON_C_REF_COUNT_LOAD(jso) __atomic_load_n(&(jso)->_ref_count, __ATOMIC_RELAXED)
+#else
+#define JSON_C_REF_COUNT_LOAD(jso) ((jso)->_ref_count)
+#endif
+
 struct json_object *json_object_get(struct json_object *jso)
 {
 	if (!jso)
 		return jso;
 
 	// Don't overflow the refcounter.
-	assert(jso->_ref_count < UINT32_MAX);
+	assert(JSON_C_REF_COUNT_LOAD(jso) < UINT32_MAX);
 
 #if defined(HAVE_ATOMIC_BUILTINS) && defined(ENABLE_THREADING)
 	__sync_add_and_fetch(&jso->_ref_count, 1);
@@ -277,7 +284,7 @@ int json_object_put(struct json_object *jso)
 	/* Avoid invalid free and crash explicitly instead of (silently)
 	 * segfaulting.
 	 */
-	assert(jso->_ref_count > 0);
+	assert(JSON_C_REF_COUNT_LOAD(jso) > 0);
 
 #if defined(HAVE_ATOMIC_BUILTINS) && defined(ENABLE_THREADING)
 	/* Note: this only allow the refcount to remain correct
